@@ -19,7 +19,7 @@ PID = "C20"
 CORE = ["max_fun_evals", "max_iter", "tol_mesh", "tol_fun", "tol_stall_iters", "uncertainty_handling", "noise_final_samples",
         "noise_size", "random_seed", "complete_poll", "accelerate_mesh", "search_n_try"]
 CORE_VALUES = {"max_fun_evals": 77, "max_iter": 9, "tol_mesh": 3e-5, "tol_fun": 7e-3, "tol_stall_iters": 6, "uncertainty_handling": True,
-               "noise_final_samples": 4, "noise_size": 0.37, "random_seed": 5, "complete_poll": True, "accelerate_mesh": False, "search_n_try": 5}
+               "noise_final_samples": 4, "noise_size": 0.37, "random_seed": 0, "complete_poll": True, "accelerate_mesh": False, "search_n_try": 5}
 # names whose value is interpreted during construction: a type-plausible alternative instead of a sentinel
 SPECIAL = {"specify_target_noise": None, "cache_size": 37, "fun_values": {}, "periodic_vars": None, "gp_mean_fun": "zero", "f_vals": None,
            "display": "off", "random_seed": 11, "nonlinear_scaling": False, "init_mesh_size_integer": -1, "poll_mesh_multiplier": 2.0,
